@@ -25,14 +25,18 @@ class ScalesSocket(object):
   def open(self):
     resolved = self._resolveAddr()
     for res in resolved:
-      self.handle = gsocket(res[0], res[1])
+      # Only publish the handle once it is connected, isOpen() must not
+      # report a socket that is still connecting or that failed to connect.
+      handle = gsocket(res[0], res[1])
       try:
-        self.handle.connect(res[4])
+        handle.connect(res[4])
       except socket.error as e:
+        handle.close()
         if res is not resolved[-1]:
           continue
         else:
           raise e
+      self.handle = handle
       break
 
   def close(self):
